@@ -372,7 +372,7 @@ pub fn all_inputs(tier: &str) -> Vec<pipe::Input> {
 pub fn run(tier: &str, only: Option<&Value>) -> i32 {
     let mut rep = Report::new("C17", tier);
     let all = cases(tier);
-    rep.rule = "E1: (a) every pub/private assignment to {type, fields, impl function, virtual function, enum, extern value, second type} x every subset of {copyable, cloneable, defaultable, packed} on a plain type x marker subsets on a vftable type and an enum; (b) every assignment of {no doc, one line, three lines with an empty middle line} (thorough: + a trailing empty line) to {module, type, enum, field, impl function, virtual function, enum variant}, with a derived type inheriting the documented members; oracle: syn inspection of visibility, derive lists, repr and #[doc] attributes of every emitted item, including that no other item carries a doc. distinct = distinct case descriptors".into();
+    rep.rule = "E1: (a) every pub/private assignment to {type, fields, impl function, virtual function, enum, extern value, second type} x every subset of {copyable, cloneable, defaultable, packed} on a plain type x marker subsets on a vftable type and an enum; (b) every assignment of {no doc, one line, three lines with an empty middle line} (thorough: + a trailing empty line) to {module, type, enum, field, impl function, virtual function, enum variant}, with a derived type inheriting the documented members; oracle: syn inspection of visibility, derive lists, repr and #[doc] attributes of every emitted item, including that no other item carries a doc; (c) private items of one module used by another module added before / after it stay private. distinct = distinct case descriptors".into();
     let only_i = only.map(|l| (l["index"].as_u64().unwrap_or(0) as usize, l["ps"].as_u64().unwrap_or(8) as usize));
     for ps in [4usize, 8] {
         if matches!(only_i, Some((_, p)) if p != ps) {
@@ -409,6 +409,59 @@ pub fn run(tier: &str, only: Option<&Value>) -> i32 {
                 rep.violation(Violation { key, features, input, ps, detail, locator: json!({"space": "carry_over", "index": idxs[j], "ps": ps}) });
             } else if j % 4001 == 0 {
                 rep.sample(json!({"ps": ps, "input": input.render()}));
+            }
+        }
+    }
+    // visibility does not depend on who else uses an item: a private type, enum or field stays private when
+    // another module (added before or after) embeds it, points to it or derives from it
+    if only.is_none() {
+        let a = "type Inner {\n    x: u32,\n    pub y: u32,\n}\nenum Mode: u32 {\n    A,\n}\ntype Base {\n    vftable {\n        fn v(&self);\n    },\n    p: *const u8,\n}\npub type Shown {\n    pub x: u64,\n}\n";
+        let b = "use a;\npub type Outer {\n    pub i: Inner,\n    pub arr: [Inner; 2],\n    pub m: Mode,\n    pub pad: u32,\n    pub p: *const Base,\n    pub s: Shown,\n}\npub type Derived {\n    #[base]\n    pub base: Base,\n    pub q: *const u8,\n}\n";
+        for ps in [4usize, 8] {
+            for (order, mods) in [("a first", vec![("a", a), ("b", b)]), ("b first", vec![("b", b), ("a", a)]), ("alone", vec![("a", a)])] {
+                let input = pipe::Input { modules: mods.iter().map(|(p, t)| (p.to_string(), t.to_string())).collect() };
+                rep.states += 1;
+                rep.traces += 1;
+                rep.evaluations += 1;
+                rep.transitions += 4;
+                rep.distinct_str(&format!("cross_module_visibility|{order}"));
+                let viol = match pipe::run(&input, ps) {
+                    pipe::Verdict::Ok(bl) => match synx::file_info(&bl.files["a.rs"]) {
+                        Err(e) => Some(("output_unreadable".to_string(), e)),
+                        Ok(fi) => {
+                            let mut bad = vec![];
+                            for (name, want) in [("Inner", false), ("Base", false), ("Shown", true)] {
+                                match fi.struct_(name) {
+                                    None => bad.push(format!("struct {name} missing")),
+                                    Some(st) if st.public != want => bad.push(format!("struct {name}: declared pub={want}, emitted pub={}", st.public)),
+                                    _ => {}
+                                }
+                            }
+                            if let Some(st) = fi.struct_("Inner") {
+                                for (f, want) in [("x", false), ("y", true)] {
+                                    if st.fields.iter().find(|x| x.name == f).map(|x| x.public) != Some(want) {
+                                        bad.push(format!("field Inner.{f}: declared pub={want}"));
+                                    }
+                                }
+                            }
+                            match fi.enum_("Mode") {
+                                None => bad.push("enum Mode missing".into()),
+                                Some(e) if e.public => bad.push("enum Mode: declared private, emitted pub".into()),
+                                _ => {}
+                            }
+                            if fi.method("Base", "v").is_some_and(|m| m.public) {
+                                bad.push("Base::v: declared private, emitted pub".into());
+                            }
+                            (!bad.is_empty()).then(|| ("visibility_differs".to_string(), format!("modules added {order}: {}", bad.join("; "))))
+                        }
+                    },
+                    pipe::Verdict::Panic(p) => Some(("panic".to_string(), p)),
+                    // using a private item of another module may be refused
+                    _ => None,
+                };
+                if let Some((key, detail)) = viol {
+                    rep.violation(Violation { key, features: vec!["cross_module".into()], input, ps, detail, locator: json!({"space": "cross_module", "ps": ps}) });
+                }
             }
         }
     }
